@@ -1242,6 +1242,95 @@ theorem hWire_sep_sim (s : HState κ ι π ν) (v : State κ GroupV CompV ι (Ms
   · intro r hr
     exact derefMsg_congr (hvw r hr) (fun x _ => hl x)
 
+theorem abs_objs_lookup (s : HState κ ι π ν) (key : ObjKey ι) :
+    (abs s).objs.lookup key = (s.objs.lookup key).map (derefMsg s.heap) := by
+  rw [abs_objs, lookup_mapV]
+
+/-- keeping a message object under a key -/
+theorem keep_spec (s : HState κ ι π ν) (v : State κ GroupV CompV ι (MsgV π) ν) (key : ObjKey ι) (o : Ref)
+    (ov : Cache.Obj (MsgV π) ν) (hs : Sep s)
+    (ht : v.tables = (abs s).tables) (hc : ∀ c, v.compiled c = (abs s).compiled c)
+    (hobj : ∀ key', (key' == key) = false → v.objs.lookup key' = (abs s).objs.lookup key')
+    (ho : IsMsg s.heap o) (hfo : ∀ y : Nat, y ∈ footOf s.heap o → y < s.next)
+    (hko : ∀ q ∈ s.objs, q.2 = o → q.1 = key) (hov : derefMsg s.heap o = ov) :
+    Sep (hKeep s key o) ∧ Sim (hKeep s key o) (keep v key ov) := by
+  refine ⟨?_, ⟨ht, hc, ?_⟩⟩
+  · refine Sep.of hs rfl rfl ?_ ?_ ?_
+    · intro r hr
+      rcases hr with h1 | h2 | ⟨p, hp, e⟩
+      · exact Or.inl (Or.inl h1)
+      · exact Or.inl (Or.inr (Or.inl h2))
+      · simp only [hKeep, List.mem_cons] at hp
+        rcases hp with rfl | hp
+        · right; intro y hy; exact hfo y (by have e' : o = r := e; rw [e']; exact hy)
+        · exact Or.inl (Or.inr (Or.inr ⟨p, hp, e⟩))
+    · intro p hp q hq e
+      simp only [hKeep, List.mem_cons] at hp hq
+      rcases hp with rfl | hp <;> rcases hq with rfl | hq
+      · rfl
+      · exact (hko q hq e.symm).symm
+      · exact hko p hp e
+      · exact hs.keyOfRoot p hp q hq e
+    · intro p hp
+      simp only [hKeep, List.mem_cons] at hp
+      rcases hp with rfl | hp
+      · exact ho
+      · exact hs.msgRoot p hp
+  · intro key'
+    show ((key, ov) :: v.objs).lookup key' = ((key, derefMsg s.heap o) :: (abs s).objs).lookup key'
+    rw [List.lookup_cons, List.lookup_cons]
+    cases hk : key' == key with
+    | true => rw [hov]
+    | false => exact hobj key' hk
+
+theorem obj_eta (x : Cache.Obj (MsgV π) ν) : ({ data := x.data, nodes := x.nodes, isWired := x.isWired } : Cache.Obj (MsgV π) ν) = x := by
+  cases x; rfl
+
+/-- the object held for a key, or a new one -/
+theorem hObtain_spec (s : HState κ ι π ν) (v : State κ GroupV CompV ι (MsgV π) ν) (c : Nat) (dir : Dir) (m : ι)
+    (hs : Sep s) (hv : Sim s v) :
+    Sep (hObtain H s c dir m).1 ∧ Sim (hObtain H s c dir m).1 (obtain H.toParams v c dir m).1 ∧
+    (match (hObtain H s c dir m).2 with
+     | .error e => (obtain H.toParams v c dir m).2 = .error e
+     | .ok o => (obtain H.toParams v c dir m).2 = .ok (derefMsg (hObtain H s c dir m).1.heap o) ∧
+         IsMsg (hObtain H s c dir m).1.heap o ∧
+         (∀ y : Nat, y ∈ footOf (hObtain H s c dir m).1.heap o → y < (hObtain H s c dir m).1.next) ∧
+         (∀ q ∈ (hObtain H s c dir m).1.objs, q.2 = o → q.1 = (c, dir, m))) := by
+  unfold hObtain obtain
+  have hl := hv.objs (c, dir, m)
+  rw [abs_objs_lookup] at hl
+  rw [hl]
+  cases hlk : s.objs.lookup (c, dir, m) with
+  | some r =>
+    simp only [Option.map_some]
+    have hmem := lookup_mem' hlk
+    refine ⟨hs, hv, trivial, hs.msgRoot _ hmem, hs.closed r (Or.inr (Or.inr ⟨_, hmem, rfl⟩)), ?_⟩
+    intro q hq e
+    exact hs.keyOfRoot q hq _ hmem e
+  | none =>
+    simp only [Option.map_none]
+    obtain ⟨sep1, sim1, keep1, objs1, res1⟩ := hFetch_spec H s v c dir m hs hv
+    refine ⟨sep1, sim1, ?_⟩
+    cases hr : (hFetch H s c dir m).2 with
+    | error e =>
+      rw [hr] at res1
+      simp only at res1 ⊢
+      rw [res1]; rfl
+    | ok o =>
+      rw [hr] at res1
+      simp only at res1 ⊢
+      obtain ⟨r1, r2, r3, r4, r5, r6⟩ := res1
+      refine ⟨?_, r6, r4, ?_⟩
+      · rw [r1]
+        simp only [Except.map]
+        congr 1
+        rw [← r2, ← r3]
+      · intro q hq e
+        rw [objs1] at hq
+        have h1 : q.2 < s.next := hs.closed q.2 (Or.inr (Or.inr ⟨q, hq, rfl⟩)) q.2 foot_self
+        have h2 : s.next ≤ q.2 := e ▸ r5
+        exact absurd h1 (Nat.not_lt.2 h2)
+
 end Proc
 
 end Bufr.Heap
